@@ -442,13 +442,17 @@ func (x *Exec) Run() {
 				x.inSeqOp = true
 				out := x.w.invoke(op)
 				x.inSeqOp = false
-				for l := range x.seqHeld {
-					delete(x.seqHeld, l)
-				}
 				x.seq++
 				if strings.HasPrefix(out.Panic, "sim:reentrant") {
 					x.fail("deadlock:reentrant:"+op.M, fmt.Sprintf("%s: %s", op, out.Panic))
 					return
+				}
+				if len(x.seqHeld) > 0 && out.Panic == "" {
+					x.fail("lock-leaked:"+op.M, fmt.Sprintf("%s returned normally but left a stack mutex locked: every later locking call on that stack blocks forever", op))
+					return
+				}
+				for l := range x.seqHeld {
+					delete(x.seqHeld, l)
 				}
 				if x.logOn {
 					x.logf("op %d.%d %s -> %s snap=%x", ti, i, op, out, x.snapHash())
@@ -536,6 +540,9 @@ func (x *Exec) Run() {
 		switch ev.kind {
 		case "op.end":
 			x.history = append(x.history, HistOp{Task: t.id, Op: t.prog[ev.op], Out: ev.out, Call: t.callSeq, Return: x.seq})
+			if len(t.held) > 0 && ev.out.Panic == "" {
+				x.fail("lock-leaked:"+t.prog[ev.op].M, fmt.Sprintf("task %d: %s returned normally but left a stack mutex locked", t.id, t.prog[ev.op]))
+			}
 			if ev.last {
 				t.state = tDone
 			}
